@@ -153,7 +153,7 @@ def pages_ensure(file_, iface):
 from contracts import c14 as _c14
 from contracts import c02 as _c02
 
-SV_T = ObjT("ServedGhost", n=Int, kind=Int, path=Str, n_404=Int, n_redirect=Int,
+SV_T = ObjT("ServedGhost", n=Int, kind=Int, path=Str, n_404=Int, n_redirect=Int, malformed=Bool,
             # what the served response was decided for (C14): the file, the validators, the stat fields
             for_path=Str, inm=Str, ims=Str, mtime=Opaque("Float"), size=Int, ctime=Opaque("Float"))
 
@@ -194,15 +194,29 @@ def _redirect_stub(ev, args, kwargs, node):
 _redirect_stub.mods = ("sv",)
 
 
+def _malformed(ev, node):
+    """URL(environ=...) / url.replace(...): urlsplit may reject the client's Host header, the path / query may not be UTF-8
+    (ValueError; A-urlsplit) - recorded on the ghost, so that the 400 it becomes can be told from a 404"""
+    g = ev.st.obj(ev.st.ghost["sv"])
+    if ev.st.choose([z3.BoolVal(True)] * 2, force_record=True) == 1:
+        g.fields["malformed"] = VBool(True)
+        raise PyRaise("ValueError", None, getattr(node, "lineno", 0))
+
+
 def _url_stub(ev, args, kwargs, node):
+    _malformed(ev, node)
     return ev.st.alloc(Obj("URL", {"path": ev.st.fresh(Str, "url.path")}))
 
 
+_url_stub.mods = ("sv",)
+
+
 def _url_replace(ev, recv, args, kwargs, node):
+    _malformed(ev, node)
     return ev.st.alloc(Obj("URL", {"path": kwargs.get("path", ev.st.obj(recv).fields["path"])}))
 
 
-_url_replace.mods = ()
+_url_replace.mods = ("sv",)
 _url_replace.mutates_recv = False
 
 
@@ -265,7 +279,7 @@ def mk_app_call(file_, iface, cls):
         params=params,
         ghosts={"fs": FS_T, "sv": SV_T, "rp": Str, "fx": ObjT("FxGhost", n_set_headers=Int), "pieces": List(Str)},
         requires=["self.directory != '' and not self.directory.endswith('/')", "fs.n_stat == 0 and fs.all_inside",
-                  "sv.n == 0 and sv.n_404 == 0 and sv.n_redirect == 0", "fx.n_set_headers == 0"] + (
+                  "sv.n == 0 and sv.n_404 == 0 and sv.n_redirect == 0 and not sv.malformed", "fx.n_set_headers == 0"] + (
                   ["rp == scope['path']"] if iface == "asgi" else []) + extra_requires,
         defs=dict(DEFS, **dict(req_defs, **dict(_c14.DEFS, **{
             "resolved_rp()": "abspath(path_join(self.directory, join_segments(rp))) + ('/' if rp.endswith('/') else '')"}))),
@@ -278,8 +292,11 @@ def mk_app_call(file_, iface, cls):
         stub_methods={(resp + ":Response", "__call__"): _served, (resp + ":FileResponse", "__call__"): _served,
                       ("URL", "replace"): _url_replace},
         ghost_modifies=["fs", "sv", "fx"], frame_check=False, invariants=inv,
-        raises={"HTTPException": "is_none(self.handle_404)"},
-        raises_ensures={"HTTPException": {"ensures": ["fs.all_inside", "sv.n == 0 and sv.n_redirect == 0"]}},
+        # 404 only without a handler; 400 only for a request URL that cannot be rebuilt (directory redirect of Pages)
+        # (stated on the state at the raise: the ghost records whether the request URL could not be rebuilt)
+        raises={"HTTPException": None},
+        raises_ensures={"HTTPException": {"ensures": ["fs.all_inside", "sv.n == 0 and sv.n_redirect == 0",
+                                                      "is_none(self.handle_404) or sv.malformed"]}},
         ensures=ensures,
         canaries={"never_serves": "sv.n == 0"},
         # replay: the model's request path on the real temp tree of the native layer (the model's directory name and
